@@ -13,9 +13,12 @@ open Saltpack.Spec hiding encode
 section
 variable (P : Prims)
 
-/-- verification accepts only the signature `sign` produces (true of `Toy.prims`;
-    of Ed25519 only for signatures made with the deterministic nonce — used ONLY
-    for the `= reference sender` corollaries, never for the field-level theorems) -/
+/-- verification accepts only the signature `sign` produces.  An IDEALISATION:
+    true of `Toy.prims`, but real Ed25519 does NOT satisfy it for a key holder
+    (who can make other verifying `(R, S)` pairs for the same message) — so with
+    the real primitives only the field-level conjuncts of the soundness theorems
+    apply.  Used ONLY for the `= reference sender` corollaries, never for the
+    field-level theorems, which hold without it. -/
 def SigCanonical (P : Prims) : Prop := ∀ s m sg, P.verify (P.sigPub s) m sg = true → sg = P.sign s m
 
 def specAttPkt (layout : Nat) (signer hh : Bytes) (i : Nat) (c : Bytes) (f : Bool) : AttPkt :=
